@@ -4185,6 +4185,11 @@ impl DocumentOrder {
     }
 
     fn insert_after(&mut self, id: usize, info: &Singleton<ContextInfo>) -> Option<usize> {
+        // a call that cannot succeed must not have removed `info` already
+        if info.borrow().id == id || self.get(id) == 0 {
+            return None;
+        }
+
         self.remove(info.borrow().id);
 
         let order = self.get(id);
@@ -4198,6 +4203,11 @@ impl DocumentOrder {
     }
 
     fn insert_before(&mut self, id: usize, info: &Singleton<ContextInfo>) -> Option<usize> {
+        // a call that cannot succeed must not have removed `info` already
+        if info.borrow().id == id || self.get(id) == 0 {
+            return None;
+        }
+
         self.remove(info.borrow().id);
 
         let order = self.get(id);
